@@ -31,6 +31,18 @@ def go : List TD → List TD → Except Str (List TD)
 
 def generateTypes (ts : List TD) : Except Str (List TD) := go ts []
 
+/-- The three boilerplate generators (`GenerateAdditionalPropertyBoilerplate`, `GenerateUnionBoilerplate`,
+`GenerateUnionAndAdditionalProopertiesBoilerplate`) are handed the *collected* list, not what `GenerateTypes` kept: each
+takes the first definition of every name (`m[t.TypeName]`) and of those the ones that need its methods. -/
+def firsts : List TD → List Str → List TD
+  | [], _ => []
+  | t :: rest, seen => if seen.contains t.name then firsts rest seen else t :: firsts rest (t.name :: seen)
+
+def boilerplate (needs : Nat → Bool) (ts : List TD) : List TD := (firsts ts []).filter fun t => needs t.body
+
+/-- the union generators before the repair: no look at the names -/
+def boilerplateOld (needs : Nat → Bool) (ts : List TD) : List TD := ts.filter fun t => needs t.body
+
 /-! ### constructImportMapping -/
 
 /-- insertion into an ascending list without repeats (`sort.Strings`, byte-wise order, followed by the "not yet named" test) -/
